@@ -48,7 +48,9 @@ R3  leg roles and instants.  The value stored in each timestamp column is resolv
     the operands: `pd.DateOffset` over calendar units, `+ timedelta` on a datetime.datetime
     that still carries its ZoneInfo (both move the wall clock and look the offset up again),
     the difference of two instants, `<value> - <zone>.utcoffset(<value>)` (which counts as
-    localising that value); an addend or a value of unknown kind is undecided.
+    localising that value), and an addend that is zero by its constants (`timedelta(days=0)`: what a
+    shared helper adds for the departure, called with an offset of 0); an addend or a value of unknown kind
+    is undecided.
     hour→hours, minute→minutes.  The INSERT statements are *computed* (literals,
     f-strings, joins, repetition, module constants and single-definition locals folded by the
     checker's evaluator), so column lists are what the database sees wherever they are
@@ -58,8 +60,14 @@ R3  leg roles and instants.  The value stored in each timestamp column is resolv
 R4  count recorded (T-ORDER): every path of `add` to `return True` passes
     _add_flight, _add_schedule and _set_flight_count(…, n) with n the return of
     _add_schedule and the id returned by _add_flight.  What is counted is written
-    before it is committed: `_add_schedule` returns the length of the list of
-    instances (0 only on a path where the list is known to be empty), and on every
+    before it is committed: `_add_schedule` returns the number of elements the list of
+    instances has at the return - `len(<list>)`, a local bound to that after the last
+    append, or a counter set to 0 and incremented by one next to every append (same
+    statement list, nothing between the two that can leave it); 0 only on a path where
+    the list is known to be empty.  The length of another sequence (the dates the loop
+    ran over), a counter incremented where nothing is appended, and - read on the
+    function as written - a length taken before the list is complete are reported with
+    what is returned.  On every
     path to a return that list has been handed to the schedules INSERT
     (`executemany` of a statement whose computed text is INSERT INTO schedules) or is
     known to be empty (may-analysis on the CFG with the outcomes of emptiness tests).
@@ -74,11 +82,17 @@ R4  count recorded (T-ORDER): every path of `add` to `return True` passes
 R5  rejection sites ⊆ documented reasons; `is_row_valid` evaluated on the table of
     documented field values rejects exactly the documented ones.
 R6  expansion shape: inclusive daily pd.date_range over the two effective dates
-    (zero-expected `inclusive=`/`closed=`/`periods=`/`freq=` with positive control); per
+    (zero-expected `inclusive=`/`closed=`/`periods=`/`freq=` with positive control).  What
+    the per-day loop iterates over is followed to that call - through locals, list()/tuple()
+    copies, comprehensions / generator expressions / `filter(lambda ...)` whose element is
+    the date itself, and small repository functions that return such an expression or are
+    a generator of the shape `for d in <dates>: if c: yield d`; a slice that is not the
+    whole sequence is a violation, a mapped or reordered sequence is undecided.  Per
     date the instance is skipped exactly when its weekday is not in the operating set or
     its arrival precedes its departure (the latter only with the warning) — decided on
-    the guard *atoms* of every `continue` and of the append, whatever their nesting;
-    everything else is appended once and counted.  Row decoding (`from_csv_row`)
+    the guard *atoms* of every `continue`, of the append, and of every filter the dates
+    pass through on the way to the loop (a filter is `if not c: continue`), whatever their
+    nesting; everything else is appended once and counted.  Row decoding (`from_csv_row`)
     evaluated on tables: all 128 weekday sets in both encodings, arrival-day codes
     'P'/blank/0/1/2, open-ended markers and YYYYMMDD dates, HHMM times, flight number,
     end-point roles.
@@ -106,7 +120,7 @@ from fractions import Fraction
 from ..astutil import (LOG_CALLS, ancestors, call_name, calls_in, conjuncts, const_value, guards_of, is_within, local_defs,
                        names_in, norm, single_def_value, stmt_of, stores_to, walk_no_nested)
 from ..cfg import CFG
-from ..loader import dotted_name
+from ..loader import dotted_name, parent
 from ..resolve import resolve_call
 from ..roles import GEOD_SIG, expr_role, is_geod_receiver
 
@@ -1420,16 +1434,169 @@ def _localisations(e):
             and not _is_utc(z)]
 
 
+_SEQ_MUTATORS = {'append', 'extend', 'insert', 'remove', 'pop', 'clear', 'sort', 'reverse', '__setitem__', '__delitem__'}
+
+
+def _mutated_in(fn: ast.AST, name: str) -> bool:
+    """is the sequence bound to the local `name` changed in place anywhere in fn (method call, element store, del, +=)?"""
+    for x in walk_no_nested(fn):
+        if isinstance(x, ast.Call) and isinstance(x.func, ast.Attribute) and x.func.attr in _SEQ_MUTATORS \
+                and isinstance(x.func.value, ast.Name) and x.func.value.id == name:
+            return True
+        if isinstance(x, ast.Subscript) and isinstance(x.ctx, (ast.Store, ast.Del)) and isinstance(x.value, ast.Name) \
+                and x.value.id == name:
+            return True
+        if isinstance(x, ast.AugAssign) and isinstance(x.target, ast.Name) and x.target.id == name:
+            return True
+    return False
+
+
+def _param_subst(e, env: dict):
+    """e with the loads of the names in env replaced by (copies of) their values"""
+    if isinstance(e, ast.Name) and isinstance(e.ctx, ast.Load) and e.id in env:
+        return _clone(env[e.id])
+    if isinstance(e, ast.AST):
+        new = _shell(e)
+        for f in e._fields:
+            setattr(new, f, _param_subst(getattr(e, f, None), env))
+        return new
+    if isinstance(e, list):
+        return [_param_subst(x, env) for x in e]
+    return e
+
+
+def _opened_iterable(prog, fi, c: ast.Call):
+    """The call of a small repository function that *produces the dates*, as an expression over the caller's values:
+    a function whose body is `return <expression>`, or a generator of the shape
+        for d in <dates>:  [if not c: continue]  [if c:] yield d
+    (which is the generator expression `(d for d in <dates> if c)`).  None when c is no such call."""
+    if prog is None or fi is None:
+        return None
+    try:
+        callee = resolve_call(prog, fi, c)
+    except Exception:
+        callee = None
+    if callee is None or any(isinstance(a, ast.Starred) for a in c.args) or any(k.arg is None for k in c.keywords):
+        return None
+    a = callee.node.args
+    if a.vararg or a.kwarg or any(d for d in callee.decorators() if not any(k in d for k in ('staticmethod', 'classmethod'))):
+        return None
+    env = dict(_arg_map(callee, c))
+    pos = a.posonlyargs + a.args
+    for arg, d in list(zip(pos[len(pos) - len(a.defaults):], a.defaults)) + \
+            [(x, d) for x, d in zip(a.kwonlyargs, a.kw_defaults) if d is not None]:
+        env.setdefault(arg.arg, d)
+    ps = callee.params
+    if callee.cls is not None and not any('staticmethod' in d for d in callee.decorators()) and ps:
+        if not isinstance(c.func, ast.Attribute):
+            return None
+        env[ps[0]] = c.func.value
+    if any(p_ not in env for p_ in ps):
+        return None
+    body = [st for st in callee.node.body
+            if not (isinstance(st, ast.Expr) and isinstance(st.value, ast.Constant) and isinstance(st.value.value, str))]
+    bound = {n.id for st in body for n in ast.walk(st) if isinstance(n, ast.Name) and isinstance(n.ctx, ast.Store)}
+    if bound & set(env):
+        return None
+    if len(body) == 1 and isinstance(body[0], ast.Return) and body[0].value is not None:
+        return _param_subst(body[0].value, env)
+    if len(body) == 1 and isinstance(body[0], ast.For) and not body[0].orelse and isinstance(body[0].target, ast.Name):
+        lp, conds = body[0], []
+        inner = list(lp.body)
+        while len(inner) > 1 and isinstance(inner[0], ast.If) and not inner[0].orelse and len(inner[0].body) == 1 \
+                and isinstance(inner[0].body[0], ast.Continue):
+            conds.append(ast.UnaryOp(op=ast.Not(), operand=inner[0].test))
+            inner = inner[1:]
+        while len(inner) == 1 and isinstance(inner[0], ast.If) and not inner[0].orelse:
+            conds.append(inner[0].test)
+            inner = list(inner[0].body)
+        if len(inner) == 1 and isinstance(inner[0], ast.Expr) and isinstance(inner[0].value, ast.Yield) \
+                and inner[0].value.value is not None \
+                and not any(isinstance(y, (ast.Yield, ast.YieldFrom, ast.Await)) for cnd in conds for y in ast.walk(cnd)):
+            gen = ast.GeneratorExp(elt=inner[0].value.value,
+                                   generators=[ast.comprehension(target=lp.target, iter=lp.iter, ifs=conds, is_async=0)])
+            ast.copy_location(gen, lp)
+            for cnd in conds:
+                if not hasattr(cnd, 'lineno'):
+                    ast.copy_location(cnd, lp)
+            return _param_subst(gen, env)
+    return None
+
+
+def _range_pipeline(fn: ast.AST, it: ast.expr, depth: int = 0, prog=None, fi=None):
+    """What a per-day loop iterates over, when that is the dates of one pd.date_range call, possibly *filtered* on the way:
+    -> (date_range call, [(condition, name of the date in it, node)], [(node, what)] restrictions) or None.
+    Followed: locals bound once and not changed in place, list()/tuple()/iter() copies, comprehensions / generator
+    expressions whose element is the date itself (`[d for d in <dates> if c]`), `filter(lambda d: c, <dates>)`, calls of
+    small repository functions that return such an expression or are a generator of that shape (`_opened_iterable`), and
+    slices (a slice that is not the whole sequence is a *restriction*: some dates of the range never reach the loop).
+    A filter is the same thing as `if not c: continue` at the top of the loop body; anything that maps or reorders the
+    dates is not followed."""
+    if depth > 8:
+        return None
+    rec = lambda x: _range_pipeline(fn, x, depth + 1, prog, fi)
+    while isinstance(it, ast.Call) and isinstance(it.func, ast.Name) and it.func.id in ('list', 'tuple', 'iter') \
+            and len(it.args) == 1 and not it.keywords:
+        it = it.args[0]
+    if isinstance(it, ast.Name):
+        v = single_def_value(fn, it.id)
+        if v is None or _mutated_in(fn, it.id):
+            return None
+        return rec(v)
+    if isinstance(it, ast.Call) and call_name(it).split('.')[-1] == 'date_range':
+        return it, [], []
+    if isinstance(it, ast.Subscript) and isinstance(it.slice, ast.Slice):
+        inner = rec(it.value)
+        if inner is None:
+            return None
+        sl = it.slice
+        whole = (sl.lower is None or const_value(sl.lower) == 0) and sl.upper is None and (sl.step is None or const_value(sl.step) == 1)
+        return inner[0], inner[1], inner[2] + ([] if whole else [(it, f'only the slice [{norm(sl)}] of the dates is visited')])
+    if isinstance(it, (ast.ListComp, ast.GeneratorExp)) and len(it.generators) == 1:
+        g = it.generators[0]
+        if g.is_async or not isinstance(g.target, ast.Name) or not (isinstance(it.elt, ast.Name) and it.elt.id == g.target.id):
+            return None
+        inner = rec(g.iter)
+        if inner is None:
+            return None
+        return inner[0], inner[1] + [(c, g.target.id, it) for c in g.ifs], inner[2]
+    if isinstance(it, ast.Call) and isinstance(it.func, ast.Name) and it.func.id == 'filter' and len(it.args) == 2 \
+            and not it.keywords and isinstance(it.args[0], ast.Lambda):
+        lam = it.args[0]
+        a = lam.args
+        if len(a.args) != 1 or a.posonlyargs or a.kwonlyargs or a.vararg or a.kwarg or a.defaults:
+            return None
+        inner = rec(it.args[1])
+        if inner is None:
+            return None
+        return inner[0], inner[1] + [(lam.body, a.args[0].arg, it)], inner[2]
+    if isinstance(it, ast.Call):
+        opened = _opened_iterable(prog, fi, it)
+        if opened is not None:
+            return rec(opened)
+    return None
+
+
 def _date_loop(prog, sch):
-    """(date_range call, the per-day loop over it, loop variable)"""
+    """(date_range call, the per-day loop over it, loop variable).  The call may be a copy with the caller's values
+    substituted when the dates are produced by a helper (`for d in self._dates(a, b)`)."""
+    piped = []
+    for lp in walk_no_nested(sch.node):
+        if isinstance(lp, ast.For) and isinstance(lp.target, ast.Name):
+            pl = _range_pipeline(sch.node, lp.iter, 0, prog, sch)
+            if pl is not None:
+                piped.append((pl[0], lp, lp.target.id))
+    if len(piped) == 1:
+        return piped[0]
     dr = [c for c in calls_in(sch.node) if call_name(c).split('.')[-1] == 'date_range']
     found = []
     for c in dr:   # the range that is iterated day by day (another date_range evaluated for something else is not it)
         for lp in walk_no_nested(sch.node):
             if isinstance(lp, ast.For) and isinstance(lp.target, ast.Name):
                 it = lp.iter
-                if any(x is c for x in ast.walk(it)) or (isinstance(it, ast.Name) and single_def_value(sch.node, it.id) is not None
-                                                          and any(x is c for x in ast.walk(single_def_value(sch.node, it.id)))):
+                if any(x is c for x in ast.walk(it)) \
+                        or (isinstance(it, ast.Name) and single_def_value(sch.node, it.id) is not None
+                            and any(x is c for x in ast.walk(single_def_value(sch.node, it.id)))):
                     found.append((c, lp, lp.target.id))
     if len(found) == 1:
         return found[0]
@@ -2081,6 +2248,30 @@ def _added_kind(e):
     return None
 
 
+def _is_zero_addend(e) -> bool:
+    """an addend that is nothing by its constants alone: 0, timedelta() / timedelta(days=0, ...) / pd.Timedelta(0),
+    a product with such a factor, a sum / difference / negation of such (what a helper adds for a default of 0 it was
+    called with)"""
+    if isinstance(e, ast.Constant):
+        return isinstance(e.value, (int, float)) and not isinstance(e.value, bool) and e.value == 0
+    if isinstance(e, ast.UnaryOp) and isinstance(e.op, (ast.USub, ast.UAdd)):
+        return _is_zero_addend(e.operand)
+    if isinstance(e, ast.BinOp):
+        if isinstance(e.op, ast.Mult):
+            return _is_zero_addend(e.left) or _is_zero_addend(e.right)
+        if isinstance(e.op, (ast.Add, ast.Sub)):
+            return _is_zero_addend(e.left) and _is_zero_addend(e.right)
+        return False
+    if isinstance(e, ast.Call) and call_name(e).split('.')[-1] in ('timedelta', 'Timedelta', 'DateOffset') \
+            and not any(isinstance(a, ast.Starred) for a in e.args) and all(k.arg for k in e.keywords):
+        if call_name(e).split('.')[-1] == 'Timedelta' and e.args and isinstance(e.args[0], ast.Constant) \
+                and isinstance(e.args[0].value, str):
+            return False
+        return all(_is_zero_addend(a) for a in e.args) and all(_is_zero_addend(k.value) for k in e.keywords
+                                                               if k.arg not in ('unit',))
+    return False
+
+
 def _rule_r3(ctx, prog, add, flt, sch):
     rows = _schedule_rows(prog, sch)
     if rows is None:
@@ -2244,6 +2435,8 @@ def _rule_after_zone(ctx, sch, col, role, end, v, locs, loopvar, line):
         if isinstance(x.op, ast.Sub) and (_is_difference_of_instants(x, lset) or kind(x.right) in ('pandas', 'stdlib')):
             continue        # aware - aware: an elapsed interval, not arithmetic on the instant
         aware, added = sides[0]
+        if _is_zero_addend(added) and not (isinstance(x.op, ast.Sub) and aware is x.right):
+            continue        # + timedelta(days=0): the instant itself (a helper called with an offset of 0)
         if isinstance(x.op, ast.Sub) and aware is x.right:
             unknown.append((added, 'an instant is subtracted from something that is not an instant'))
             continue
@@ -2286,12 +2479,75 @@ def _rule_after_zone(ctx, sch, col, role, end, v, locs, loopvar, line):
            f'`{norm(added)[:60]}` is added to {what + " " if what else ""}the {role} instant after the {end} airport\'s zone was attached: '
            f'{because}, but {offs} counts local calendar days / wall-clock time in the {end} zone.  When a daylight-saving change '
            f'of that zone lies between the localised time and the result the stored UTC instant is one hour off; add it to the '
-           f'naive wall-clock value before the zone is attached', line=getattr(added, 'lineno', line))
+           f'naive wall-clock value before the zone is attached',
+           line=line if getattr(getattr(added, '_fi', None), 'file', sch.file) != sch.file else getattr(added, 'lineno', line))
 
 
 def _is_difference_of_instants(x, lset) -> bool:
     """`aware - aware` (an elapsed interval) is not wall-clock arithmetic on an aware instant"""
     return all(any(id(y) in lset for y in ast.walk(s)) for s in (x.left, x.right))
+
+
+def _counts_list(fn: ast.AST, lst: str, apps: list, v: ast.expr, depth: int = 0):
+    """Is v, returned at the end of fn, the number of elements the list `lst` has then?  -> (yes?, what it is).
+    `len(lst)`; a local bound once to that after the last append (and outside the loops that append); or a counter:
+    a local set to the constant 0 outside the loops and otherwise only incremented by 1, once next to every append (same
+    statement list, same guards, nothing between the two that can leave the list)."""
+    if isinstance(v, ast.Call) and call_name(v) == 'len' and len(v.args) == 1 and not v.keywords:
+        if norm(v.args[0]) == lst:
+            return True, f'len({lst})'
+        a = v.args[0]
+        if isinstance(a, ast.Name):
+            return False, f'the length of `{a.id}`, another sequence (what it holds need not have been stored: an instance can ' \
+                          f'be dropped on the way to `{lst}`)'
+        return False, 'the length of another sequence'
+    if not isinstance(v, ast.Name) or depth > 3:
+        return False, ''
+    defs = local_defs(fn, v.id)
+    app_stmts = [stmt_of(a) for a in apps]
+    loops = [a for s_ in app_stmts for a in ancestors(s_) if isinstance(a, (ast.For, ast.While))]
+    if len(defs) == 1:
+        d = single_def_value(fn, v.id)
+        if d is None:
+            return False, ''
+        late = all(defs[0].lineno > s_.lineno for s_ in app_stmts) and not any(is_within(defs[0], lp) for lp in loops)
+        okd, why = _counts_list(fn, lst, apps, d, depth + 1)
+        if okd and not late:
+            return False, f'`{norm(d)}` taken before the last instance is appended'
+        return okd, why
+    inits = [d for d in defs if isinstance(d, (ast.Assign, ast.AnnAssign))]
+    incs = [d for d in defs if isinstance(d, ast.AugAssign)]
+    if len(inits) != 1 or len(inits) + len(incs) != len(defs) or not incs:
+        return False, ''
+    i0 = inits[0]
+    if not (isinstance(getattr(i0, 'value', None), ast.Constant) and i0.value.value == 0 and i0.value.value is not False) \
+            or any(is_within(i0, lp) for lp in loops) or any(i0.lineno > s_.lineno for s_ in app_stmts):
+        return False, ''
+    if not all(isinstance(d.op, ast.Add) and isinstance(d.value, ast.Constant) and d.value.value == 1
+               and d.value.value is not True for d in incs):
+        return False, f'a counter `{v.id}` that is not incremented by one per instance'
+    free = list(app_stmts)
+    for d in incs:
+        body = next((b for f_ in ('body', 'orelse', 'finalbody') for b in [getattr(parent(d), f_, None)]
+                     if isinstance(b, list) and any(x is d for x in b)), None)
+        mate = None
+        if body is not None:
+            i = next(k for k, x in enumerate(body) if x is d)
+            for s_ in free:
+                j = next((k for k, x in enumerate(body) if x is s_), None)
+                if j is None:
+                    continue
+                between = body[min(i, j) + 1:max(i, j)]
+                if not any(isinstance(y, (ast.Continue, ast.Break, ast.Return, ast.Raise)) for b in between for y in ast.walk(b)):
+                    mate = s_
+                    break
+        if mate is None:
+            return False, f'a counter `{v.id}` that is incremented (line {d.lineno}) where no instance is appended to `{lst}`: it ' \
+                          f'also counts dates whose instance is dropped afterwards'
+        free = [s_ for s_ in free if s_ is not mate]
+    if free:
+        return False, f'a counter `{v.id}` that misses an append to `{lst}`'
+    return True, f'counter `{v.id}` incremented with every append to `{lst}`'
 
 
 def _rule_r4(ctx, prog, wm, add, flt, sch):
@@ -2350,12 +2606,42 @@ def _rule_r4(ctx, prog, wm, add, flt, sch):
         # a return on a path on which the list is known to be empty may say 0
         g_, ins_, _ = _flow(sch.node, lst, lambda node: 'add' if any(_is_append_to(c, lst) for c in _node_calls(node)) else None, init='E')
         empty_at = {id(n.stmt) for n in g_.nodes if n.kind == 'stmt' and isinstance(n.stmt, ast.Return) and ins_.get(n.id) == frozenset({'E'})}
-    ok = bool(r) and lst is not None and all(
-        (isinstance(x.value, ast.Call) and call_name(x.value) == 'len' and norm(x.value.args[0]) == lst)
-        or (id(x) in empty_at and isinstance(x.value, ast.Constant) and x.value.value == 0 and x.value.value is not False) for x in r) \
-        and any(isinstance(x.value, ast.Call) for x in r)
+    verdicts = []
+    for x in r:
+        if id(x) in empty_at and isinstance(x.value, ast.Constant) and x.value.value == 0 and x.value.value is not False:
+            verdicts.append((x, True, '0', False))
+            continue
+        okx, whyx = _counts_list(sch.node, lst, rows[2] if rows else [], x.value) if lst is not None else (False, '')
+        verdicts.append((x, okx, whyx, True))
+    ok = bool(r) and lst is not None and all(v[1] for v in verdicts) and any(v[3] for v in verdicts)
+    wrong = next((v for v in verdicts if not v[1]), None)
     ctx.ob('C13-R4', sch, 'returns the number of instances created', ok,
-           f'len({lst})' if ok else '_add_schedule does not return the number of rows it inserts')
+           next(v[2] for v in verdicts if v[3]) if ok else
+           '_add_schedule does not return the number of rows it inserts' +
+           (f': it returns `{norm(wrong[0].value)[:60]}`' + (f' - {wrong[2]}' if wrong[2] else '') +
+            f', but the instances that are stored are the elements of `{lst}`; the importer records the returned number as the '
+            f'flight\'s instance count' if wrong is not None and wrong[0].value is not None and lst is not None else ''),
+           line=(wrong[0].lineno if wrong is not None else None) or sch.node.lineno)
+    if ok:
+        # the same question on the function *as written*: a length bound to a local before the list is complete and returned
+        # at the end is not `len(<list>)` at the return, whatever a normalisation pass makes of the local
+        raw = _raw_index(sch.module)['functions'].get(sch.qualname)
+        if raw is not None:
+            for n_ in ast.walk(raw):
+                for ch in ast.iter_child_nodes(n_):
+                    ch._parent = n_
+            for x in [n_ for n_ in walk_no_nested(raw) if isinstance(n_, ast.Return)]:
+                d = single_def_value(raw, x.value.id) if isinstance(x.value, ast.Name) else None
+                if isinstance(d, ast.Call) and call_name(d) == 'len' and len(d.args) == 1 and isinstance(d.args[0], ast.Name):
+                    rl = d.args[0].id
+                    rapps = [c_ for c_ in calls_in(raw) if _is_append_to(c_, rl)]
+                    if rapps:
+                        okx, whyx = _counts_list(raw, rl, rapps, x.value)
+                        if not okx and 'taken before' in whyx:
+                            ctx.ob('C13-R4', sch, 'returns the number of instances created (as written)', False,
+                                   f'_add_schedule does not return the number of rows it inserts: it returns `{x.value.id}`, '
+                                   f'{whyx} to `{rl}`; the importer records the returned number as the flight\'s instance count',
+                                   line=x.lineno)
     sq = [c for c in calls_in(cnt.node) if call_name(c).endswith('.execute') and len(c.args) >= 2]
     ok = False
     if sq:
@@ -2478,19 +2764,21 @@ def _rule_r6(ctx, prog, om, wm, sch):
     daysp = [p for p in sch.params if 'days' in _tokens(p) or _tokens(p) == {'weekdays'}]
     from_pandas = prog.module('types/time.py').func('DayOfWeek.from_pandas')
 
-    def atom_kind(t, pol):
-        """('weekday', operating?) / ('misordered', arrival precedes departure?) / None"""
+    def atom_kind(t, pol, datevar=None):
+        """('weekday', operating?) / ('misordered', arrival precedes departure?) / None; `datevar` is the name the date
+        has where the test is written (the loop variable, or the variable of a filter the dates pass through)"""
+        datevar = datevar or loopvar
         if isinstance(t, ast.Compare) and len(t.ops) == 1:
             op, left, right = t.ops[0], _subst(sch.node, t.left), _subst(sch.node, t.comparators[0])
             if isinstance(op, (ast.In, ast.NotIn)) and isinstance(right, ast.Name) and right.id in daysp:
                 wd = False
-                if isinstance(left, ast.Call) and len(left.args) == 1 and norm(left.args[0]) == loopvar:
+                if isinstance(left, ast.Call) and len(left.args) == 1 and norm(left.args[0]) == datevar:
                     try:
                         wd = resolve_call(prog, sch, left) == from_pandas
                     except Exception:
                         wd = False
                 if isinstance(left, ast.Call) and call_name(left).split('.')[-1] == 'DayOfWeek' and len(left.args) == 1 \
-                        and norm(left.args[0]) == f'{loopvar}.isoweekday()':
+                        and norm(left.args[0]) == f'{datevar}.isoweekday()':
                     wd = True
                 if wd:
                     return 'weekday', (isinstance(op, ast.In)) == pol
@@ -2524,6 +2812,28 @@ def _rule_r6(ctx, prog, om, wm, sch):
     conts = [n for n in ast.walk(loop) if isinstance(n, (ast.Continue, ast.Break))
              and next((a for a in ancestors(n) if isinstance(a, (ast.For, ast.While))), None) is loop]
     seen = set()
+    # the dates the loop body sees: every date of the range, or those that pass a filter written on the iterable
+    # (`[d for d in <range> if c]`, `filter(lambda d: c, <range>)`, through locals) - the same thing as `if not c: continue`
+    pipe = _range_pipeline(sch.node, loop.iter, 0, prog, sch)
+    if pipe is None or norm(pipe[0]) != norm(c):
+        ctx.undecided('C13-R6', sch, f'for {loopvar} in {norm(loop.iter)[:60]}', 'the per-day loop does not run over the dates of '
+                      'the range themselves (possibly filtered): whether every date of the range reaches the loop body is not decided')
+    for node, what in pipe[2]:
+        ctx.ob('C13-R6', sch, f'every date of the range reaches the per-day loop ({norm(node)[:60]})', False,
+               f'{what}: instances on operating days inside the effective range are not created', line=getattr(node, 'lineno', loop.lineno))
+    for cond, dvar, node in pipe[1]:
+        for t, pol in conjuncts(cond, True):
+            k = atom_kind(t, pol, dvar)
+            if k == ('weekday', True):
+                seen.add('weekday')
+                ctx.ob('C13-R6', sch, 'skip when the weekday is not an operating day', True, norm(t), line=node.lineno)
+            else:
+                ctx.ob('C13-R6', sch, f'dates filtered by {norm(t) if pol else "not (" + norm(t) + ")"}', False,
+                       'the dates of the effective range are filtered before the per-day loop by a condition other than the '
+                       'weekday being an operating day: an instance inside the effective range on an operating day is skipped '
+                       'for another reason (only a non-operating weekday, or an arrival that precedes the departure, drops an '
+                       'instance)' if k != ('weekday', False) else
+                       'the filter on the dates keeps the days that are NOT operating days of the flight', line=node.lineno)
     warn_fi = wm.functions.get('WritableDatabase._warn')
     warns = [w for w in calls_in(loop) if (warn_fi is not None and resolve_call(prog, sch, w) == warn_fi or 'warn' in _tokens(call_name(w)))
              and any(norm(a).endswith('TIME_MISORDERING') for a in list(w.args) + [k.value for k in w.keywords])]
